@@ -309,6 +309,13 @@ def chk_derivation(rng):
         [C.ConstraintsIntersection(C.ValueRangeConstraint(0, 9)), C.ConstraintsUnion(C.SingleValueConstraint(2), C.SingleValueConstraint(30))],
         [C.ConstraintsExclusion(C.SingleValueConstraint(4)), C.ValueRangeConstraint(2, 6)],
         [C.SingleValueConstraint(2, 9), C.ValueRangeConstraint(2, 9)],
+        # a later constraint that equals an *alternative* of a union further up (the union's alternatives are listed in the
+        # bookkeeping of every set that holds the union), and one that equals an operand already there
+        [C.ConstraintsUnion(C.ValueRangeConstraint(1, 5), C.ValueRangeConstraint(10, 20)), C.ValueRangeConstraint(0, 15),
+         C.ValueRangeConstraint(1, 5)],
+        [C.ConstraintsUnion(C.SingleValueConstraint(1, 2), C.SingleValueConstraint(8, 9)), C.ValueRangeConstraint(0, 8),
+         C.SingleValueConstraint(8, 9)],
+        [C.ValueRangeConstraint(0, 10), C.ValueRangeConstraint(2, 5), C.ValueRangeConstraint(0, 10)],
         # longer chains: every ancestor is a supertype, not only the parent
         [C.ValueRangeConstraint(0, 100), C.ValueRangeConstraint(10, 50), C.SingleValueConstraint(20, 30),
          C.SingleValueConstraint(20)],
